@@ -176,7 +176,8 @@ Print Assumptions C02_aug_ops_nonvacuous.
 (* ================================================================== 3. writing *)
 
 (* reachable: parsed from any derivation, +s -s ~c, closed under & | ~ &= |= , the left / right / operator
-   setters, and having been written before.  The tokens that HalfSpace._update_values + GeometryTree.format produce are a
+   setters, the same edits applied in place to any sub-object (x.left.operator = ..., x.right.left = y,
+   x.left &= y; R_at), and having been written before.  The tokens that HalfSpace._update_values + GeometryTree.format produce are a
    geometry by MCNP's rules and denote the Boolean function of the object. *)
 Theorem C02_write : forall h, reachable h ->
   exists e, GDenotes (written_tokens h) e /\ beq e (sem_hs h).
@@ -201,6 +202,22 @@ Example C02_write_nonvacuous :
      TRParen]%Z.
 Proof. split; [exact ex_reachable | exact ex_edited_tokens]. Qed.
 Print Assumptions C02_write_nonvacuous.
+
+(* histories: built from scratch, written (the syntax nodes now exist), edited in place below the root, written
+   again:  (-s1 & +s2) & -s3, geometry.left.operator = UNION  ->  (-1 : 2) -3;
+           -s1 & ~c5, geometry.right.left = +s2 | -s3         ->  -1 #(2 : -3) *)
+Example C02_write_history_nonvacuous :
+  (exists h, hs_at [false] (at_apply (AtSetOp OUnion) (surf_pos 0))
+               (update_values (hs_and (hs_and (surf_neg 1) (surf_pos 2)) (surf_neg 3))) = Some h /\
+             reachable h /\
+             sem_hs h = BAnd (BOr (BSurf false 1) (BSurf true 2)) (BSurf false 3) /\
+             written_tokens h = [TLParen; TLeaf false 1; TColon; TLeaf true 2; TRParen; TLeaf false 3]%Z) /\
+  (exists h, hs_at [true] (at_apply AtSetL (hs_or (surf_pos 2) (surf_neg 3)))
+               (update_values (hs_and (surf_neg 1) (cell_compl 5))) = Some h /\
+             reachable h /\
+             written_tokens h = [TLeaf false 1; THash; TLParen; TLeaf true 2; TColon; TLeaf false 3; TRParen]%Z).
+Proof. exact ex_history. Qed.
+Print Assumptions C02_write_history_nonvacuous.
 
 (* built from scratch (no syntax node anywhere): the parentheses the operator tree needs are generated *)
 Theorem C02_write_scratch : forall h, scratch h = true ->
